@@ -124,6 +124,22 @@ def quantifier(I: Interp, which, gen: ast.GeneratorExp, env: Env):
     g = gen.generators[0]
     it = g.iter
     if not (isinstance(it, ast.Call) and isinstance(it.func, ast.Name) and it.func.id == "range" and isinstance(g.target, ast.Name)):
+        # all/any over the elements of a list of unknown length: quantify over its index
+        if isinstance(g.target, ast.Name) and not isinstance(it, ast.Call) or (isinstance(it, ast.Call) and not (isinstance(it.func, ast.Name) and it.func.id in ("zip", "enumerate", "range"))):
+            try:
+                lst = I.eval(it, env)
+            except Unsupported:
+                return _MISSING
+            if isinstance(lst, SList) and not isinstance(lst.n, int) and isinstance(g.target, ast.Name):
+                j = z3.Int(I.ctx.fresh_name("qi"))
+                e2 = Env(env)
+                e2.set(g.target.id, list_get(I.ctx, lst, j))
+                rng = z3.And(0 <= j, j < lst.nz())
+                conds = [I.zbool(I.eval(c, e2)) for c in g.ifs]
+                body = I.zbool(I.eval(gen.elt, e2))
+                if which == "all":
+                    return SV(z3.ForAll([j], z3.Implies(z3.And(rng, *conds), body)), BOOL)
+                return SV(z3.Exists([j], z3.And(rng, *conds, body)), BOOL)
         return _MISSING
     bounds = [I.eval(a, env) for a in it.args]
     if len(bounds) == 1:
@@ -439,6 +455,12 @@ def _extreme(I, args, key, op):
 def _ite(I, c, a, b):
     if isinstance(a, tuple) and isinstance(b, tuple) and len(a) == len(b):
         return tuple(_ite(I, c, x, y) for x, y in zip(a, b))
+    if isinstance(a, SV) and isinstance(a.ty, OptT) and not (isinstance(b, SV) and b.ty == a.ty):
+        a = unpack(I.ctx, sort_of(a.ty).accessor(1, 0)(a.t), a.ty.elem)
+    if isinstance(b, SV) and isinstance(b.ty, OptT) and not (isinstance(a, SV) and a.ty == b.ty):
+        b = unpack(I.ctx, sort_of(b.ty).accessor(1, 0)(b.t), b.ty.elem)
+    if (isinstance(a, SV) and a.ty == STR and isinstance(b, str)) or (isinstance(b, SV) and b.ty == STR and isinstance(a, str)):
+        return SV(z3.simplify(z3.If(c, pack(I.ctx, a, STR), pack(I.ctx, b, STR))), STR)
     ta, tb = ty_of(a), ty_of(b)
     if ta is None or tb is None:
         raise Unsupported("ite of untyped values")
@@ -558,6 +580,8 @@ BUILTINS.update({
 })
 BUILTINS["open"] = FuncRef("open")
 BUILTINS["bytes"] = ClassRef("bytes", "bytes")
+for _t in ("float", "complex", "frozenset"):
+    BUILTINS[_t] = ClassRef(_t, _t)
 for _e in ("Exception", "AssertionError", "TypeError", "ValueError", "KeyError", "IndexError", "StopIteration",
            "AttributeError", "ImportError", "ModuleNotFoundError", "NotImplementedError", "RuntimeError",
            "SyntaxError", "OSError", "FileNotFoundError", "BaseException", "LookupError", "NotImplemented"):
